@@ -270,6 +270,17 @@ def check(run):
             run.check(any(wraps(c) for c in psets), 'R5', 'probe-wraps', fname, f.loc(psets[0]),
                       'the port-0 probe only ever moves the candidate upwards (%s): once the counter is near the top of the range a single taken port makes bind(port 0) - and every implicit bind of connect/send_to - fail with address_in_use although nearly every port is free' % '; '.join(q.render(f, c) for c in psets),
                       'the probe re-enters the bottom of the ephemeral range before giving up')
+            # ... and every candidate is LOOKED UP: between a change of the candidate and the next evaluation of the loop's
+            # test the registry is asked about the new endpoint (an iterator merely stepped on is stale after a wrap)
+            lks = [c for c in f.calls() if (c.get('callee') or '').split('::')[-1] in ('lower_bound', 'find', 'count', 'equal_range', 'upper_bound') and in_loop(c)
+                   and 'm_' in q.render(f, c.get('obj')) and c.get('args') and q.render(f, c['args'][0]) == q.render(f, psets[0].get('obj'))]
+            lkb = {f.cfg.node_block(c) for c in lks} - {None}
+            for lp in [n_ for n_ in f.all_nodes() if n_['k'] in ('while', 'for', 'do') and is_node(n_.get('cond')) and any(y is psets[0] for y in walk(n_))]:
+                cb = f.cfg.node_block(lp['cond'])
+                stale = [c for c in psets if cb is not None and f.cfg.node_block(c) not in lkb and cb in f.cfg.reach_from(f.cfg.node_block(c), avoid=lkb)]
+                run.check(not stale and bool(lks), 'R5', 'probe-looks-every-candidate-up', fname, f.loc(stale[0]) if stale else f.loc(lp),
+                          'after the candidate port is changed the loop test is reached again without the registry having been asked about the new endpoint (the iterator is stepped, not looked up): once the candidate wraps to the bottom of the range a port that is taken is handed to the final duplicate test as free - bind(port 0) fails with address_in_use although thousands of ports are free',
+                          'a lookup of the current candidate on every way back to the loop test')
         priv = [n for n in f.all_nodes() if n['k'] == 'bin' and n['op'] == '&&' and '1024' in q.render(f, n)]
         run.check(bool(priv), 'R5', 'privileged-ports', fname, f.loc(), 'no test of ports below 1024', 'ports 1..1023 rejected')
     for fname in (IO + '::bind_socket', IO + '::bind_udp_socket'):
